@@ -1,9 +1,11 @@
 import Driver.OpsEval
+import Driver.OpsReduce
+import Driver.OpsHof
 /-! `bvdriver`: one operation per stdin line, one canonical result line per operation -/
 namespace Bingo
 
 def handlers : List (List String → Option String) :=
-  [Drv.OpsEval.handle]
+  [Drv.OpsEval.handle, Drv.OpsReduce.handle, Drv.OpsHof.handle]
 
 def dispatch (line : String) : String :=
   let parts := Drv.splitSemi line
